@@ -64,6 +64,14 @@ def cli_cases():
     cases.append(("append-depletion+thermal", ["--append-depletion", "--append-thermal-desorption"], (kept, freeze + des(201))))
     cases.append(("append-depletion+photon+cosmic-ray", ["--append-depletion", "--append-photon-desorption", "--append-cosmic-ray-desorption"], (kept, freeze + des(203) + des(202))))
     cases.append(("dedup+depletion+all-desorption", ["--remove-duplicate", "--append-depletion", "--append-thermal-desorption", "--append-photon-desorption", "--append-cosmic-ray-desorption"], (dedup, freeze + des(201) + des(203) + des(202))))
+    # a reduction by species combined with appended grain processes in one invocation: the reduction selects among the
+    # reactions of the input file, the appended processes then refer to the species that are left
+    red = [key(i) for i in base if spec(i) <= allowed]
+    rneutral = sorted(x for x in set().union(*[spec(i) for i in base if spec(i) <= allowed]) if not x.endswith(("+", "-")))
+    rfreeze = [([x], ["#" + x], 200, -1.0, -1.0) for x in rneutral]
+    rdes = lambda code: [(["#" + x], [x], code, -1.0, -1.0) for x in rneutral]
+    cases.append(("reduce+depletion", ["--reduce-by-species", "H,H2, C ,CH", "--append-depletion"], (red, rfreeze)))
+    cases.append(("reduce+depletion+thermal", ["--reduce-by-species", "H,H2, C ,CH", "--append-depletion", "--append-thermal-desorption"], (red, rfreeze + rdes(201))))
     return cases
 
 
